@@ -105,12 +105,19 @@ def collect(eng, entry_name):
                 kind = pre[0]
                 terms = [x for x in pre[1:] if is_t(x)]
                 obs.append(Ob("pre:" + kind, ev, terms, pre, "%s precondition of %s" % (kind, callee.split("::")[-1])))
-            elif ev.get("tc") and not ev.get("local") and not ev.get("inlined"):
+            elif not ev.get("local") and not ev.get("inlined") and not ev.get("model"):
                 dn = ev.get("dname") or callee
                 from .models import norm
-                if norm(dn) not in TC_TOTAL and not ev.get("model"):
+                nd = norm(dn)
+                std = nd.startswith(("std::", "<std::", "core::", "alloc::")) or " as std::" in nd
+                if ev.get("tc") and nd not in TC_TOTAL:
                     obs.append(Ob("partial?", ev, list(ev["args"]), ("unknown",),
-                                  "unmodelled #[track_caller] external callee %s" % norm(dn)))
+                                  "unmodelled #[track_caller] external callee %s" % nd))
+                elif not std:
+                    # functions of other crates are trusted only through an explicit model: a new use of an unmodelled
+                    # third-party API on input-dependent data fails closed
+                    obs.append(Ob("unmodelled-external", ev, list(ev["args"]), ("unknown",),
+                                  "external callee %s has no model (may panic for some input)" % nd))
             sm = ev.get("strobe_more")
             if sm is not None and not (sm.op == "int" and sm.args[0] == 0):
                 obs.append(Ob("strobe-more", ev, [sm], ("const0", sm), "Strobe `more` flag must be the constant false"))
